@@ -205,6 +205,26 @@ def run(ctx):
             ctx.inconc(name, n); continue
         ctx.violation(f"{t[0]},{t[1]},{t[2]}|general-embedding" + ('|adaptive' if len(t) > 7 and t[7] else ''), f"{n} differs between the {t[2]} declaration and its general embedding", replay=dict(task=list(t)))
     ctx.twin('twin: outputs claimed to differ by 1 must be refuted', tw == len(tasks))
+    # lemma the log-ODE comparison rests on: the Levy area handed to the solver is antisymmetric with a zero diagonal - also
+    # when a step's query is answered by MERGING stored pieces of the real BrownianInterval (a Brownian object used before on
+    # another grid, or built with a dt hint) - otherwise a commutative diffusion declared `general` picks up dg.g.A_kk terms
+    # that its diagonal/scalar declaration short-circuits to zero.  Same obligations as C04's merged-area law (E2).
+    from . import c04
+    from .. import brownian as Bm
+    lt = [('levy', dict(levy='davie', size=(1, 2)), 'merge', None, 3000, 60000), ('levy', dict(levy='foster', size=(1, 2)), 'merge', None, 3000, 60000)]
+    for t, (st_, res) in zip(lt, pmap(c04.run_one, lt)):
+        name = f"lemma merged Levy area antisymmetric {t[1]['levy']}"
+        if st_ != 'ok':
+            ctx.inconc(name, str(res)[:400]); continue
+        ctx.paths += res['stats']['paths']; ctx.queries += res['stats']['queries']; ctx.solver_s += res['stats']['solver_s']
+        if not res['nfail']:
+            ctx.ok(name, f"{res['stats']['paths']} paths"); continue
+        f = res['failures'][0]
+        what = f['what'].split('[')[0]
+        if f['kind'] == 'unknown':
+            ctx.inconc(name, f['detail'][:200]); continue
+        ctx.violation(f"levy-lemma|{t[1]['levy']}|{what}", f"{f['what']} fails: {f['detail'][:200]}",
+                      replay=dict(lemma='c04', kind=t[0], cfg=c04._jsonable(t[1]), a=t[2], b=t[3], inputs=f['inputs'], what=what, full=f['what']))
     ct = [(2, 2)] if ctx.tier == 'quick' else [(3, 2), (2, 3)]
     for t, (st_, res) in zip(ct, pmap(controller_task, ct)):
         name = f"adaptive controller independent of declaration metadata: <= {t[0]} trials, {t[1]} output times"
@@ -221,6 +241,9 @@ def run(ctx):
 
 
 def replay(data):
+    if data['replay'].get('lemma') == 'c04':
+        from . import c04
+        return c04.replay(data)
     import torchsde
     if data['replay'].get('kind') == 'controller':
         # numeric: adaptive solves of the same SDE declared special / general on the same Brownian path
